@@ -409,6 +409,8 @@ class StabEval(TermEval):
             raise Unknown('free variable %s' % show(t))
         if t == self.asg:
             return Abs('asg')
+        if k in ('carried', 'prefix') and self.in_rows:
+            return Abs('stale', t[1])       # what an earlier row (an earlier student) left in this variable
         if k == 'attr':
             a = lp.model_attr(t)
             if a == 'pairs':
@@ -532,6 +534,9 @@ class StabEval(TermEval):
     # ---- comparisons ------------------------------------------------------------------------------
     def compare(self, op, a, b):
         v = self.v
+        for x in (a, b):
+            if isinstance(x, Abs) and x.tag == 'stale':
+                raise KindError('the verdict for a student reads %s as an earlier student\'s row left it (it is not set again for this student on this path)' % x.data)
         def attr(x, who, name):
             return isinstance(x, Abs) and x.tag == 'attr' and x.data == (who, name)
         def el(x, kind):
@@ -712,8 +717,8 @@ class StabEval(TermEval):
                     self.row, self.pair = saved
             elif k in ('callo', 'expr', 'alias'):
                 pass
-            elif k == 'acc' and not self.in_rows:
-                pass
+            elif k == 'acc':
+                pass            # reads of the accumulated variable arrive as terms (carried value / value of this row)
             else:
                 raise Unknown('effect %s at %s outside the finite evaluator' % (k, e.loc))
 
